@@ -66,7 +66,8 @@ def gen(rng: Rng, tier, i):
         used = {n for n, _ in g["attrs"]}
         what, n = x.pick([("str", 4097), ("str", 70000), ("strlist", 300), ("mixedlist", 257),
                           ("intlist", 70000), ("floatlist_integral", 1000), ("dict", 1100), ("nest", 12),
-                          ("tuplelist", 120), ("attrs", 300)])
+                          ("tuplelist", 120), ("attrs", 300), ("mixedlist_late", 1003),
+                          ("mixedlist_late", 1003)])
         if what == "attrs":       # an object with hundreds of attributes
             for q in range(n):
                 g["attrs"].append([f"m{q}", {"k": "int", "v": q} if q % 3 else {"k": "str", "v": f"v{q}"}])
